@@ -68,12 +68,33 @@ def permute(params: list, rng: random.Random) -> list:
     return out
 
 
+LIST_STYLE = {'Gradients', 'Thicknesses'}
+
+
+def perturb(rest: str) -> str:
+    """A different value text for a superseded earlier occurrence (scalar or list-style `a, b, c`)."""
+    out = []
+    for tok in rest.split(','):
+        t = tok.strip()
+        try:
+            x = float(t)
+            out.append(repr(x * 1.07 + 0.5) if '.' in t or 'e' in t.lower() else str(int(x) + 1))
+        except ValueError:
+            out.append(t)
+    return ', '.join(out)
+
+
 def render(params: list, rng: random.Random, style: str) -> str:
     lines = []
     eol = '\r\n' if style == 'crlf' else '\n'
     for name, rest in params:
         value = rest.split(',')[0].strip()
         tail = ','.join(rest.split(',')[1:])
+        if name in LIST_STYLE:       # the whole comma-separated list is the value; a comment is introduced by `--`
+            value, tail = rest.split('--')[0].strip().rstrip(','), ''
+            if style == 'trail':
+                lines.append(f'{name}, {value} -- a comment')
+                continue
         if style == 'plain' or style == 'crlf':
             lines.append(f'{name}, {rest}')
         elif style == 'pad':
@@ -86,9 +107,8 @@ def render(params: list, rng: random.Random, style: str) -> str:
                                          '*** Section ***', 'no comma on this line']))
             lines.append(f'{name}, {rest}')
         elif style == 'duplicate':
-            if rng.random() < 0.25 and not is_addon(name):
-                bogus = {'1': '2', '2': '1'}.get(value, value)
-                lines.append(f'{name}, {bogus}, superseded below')
+            if rng.random() < 0.3 and not is_addon(name):
+                lines.append(f'{name}, {perturb(rest)}')       # an earlier, different occurrence: the last one governs
             lines.append(f'{name}, {rest}')
         else:
             raise ValueError(style)
@@ -181,6 +201,14 @@ def run(tier: str) -> int:
             bases.append((f'example:{n}', last_wins(ex[n])))
     for tag, text, p in gen.grid(seed() * 31 + 12, 14 if tier == 'quick' else 80):
         bases.append((tag, last_wins(text)))
+    # list-style parameters (`Gradients, g1, g2, ...`, `Thicknesses, ...`) are parsed from the raw line, not from the value field
+    for k in range(3 if tier == 'quick' else 12):
+        p = gen.base(rng, 4, 1, rng.choice([1, 2]), rng.choice([1, 2, 3]))
+        p.pop('Gradient 1', None)
+        p['Number of Segments'] = 3
+        p['Gradients'] = ', '.join(gen.fmt(rng.uniform(30, 80)) for _ in range(3))
+        p['Thicknesses'] = ', '.join(gen.fmt(rng.uniform(0.5, 1.5)) for _ in range(2))
+        bases.append((f'liststyle{k}', last_wins(gen.to_text(p))))
     nperm = 3 if tier == 'quick' else 10
     jobs, groups, overrides = [], {}, []
     for tag, params in bases:
@@ -188,16 +216,17 @@ def run(tier: str) -> int:
         groups[tag] = []
         jobs.append((f'{tag}|base', base_text))
         groups[tag].append(f'{tag}|base')
-        for st in STYLES[1:]:
-            jobs.append((f'{tag}|{st}', render(params, rng, st)))
-            groups[tag].append(f'{tag}|{st}')
+        for st in STYLES[1:] + ['duplicate']:
+            vt = f'{tag}|{st}' if f'{tag}|{st}' not in groups[tag] else f'{tag}|{st}2'
+            jobs.append((vt, render(params, rng, st)))
+            groups[tag].append(vt)
         for k in range(nperm):
             jobs.append((f'{tag}|perm{k}', render(permute(params, rng), rng, rng.choice(['plain', 'decorate', 'duplicate']))))
             groups[tag].append(f'{tag}|perm{k}')
         if len(params) > 3:
             cut = rng.randint(1, len(params) - 1)
             head, tail = params[:cut], params[cut:]
-            ov = [(n, r.split(',')[0].strip()) for n, r in tail]
+            ov = [(n, r.split('--')[0].strip().rstrip(',') if n in LIST_STYLE else r.split(',')[0].strip()) for n, r in tail]
             base_part = head + [(n, {'1': '2'}.get(v, v)) for n, v in ov[:2] if not is_addon(n)]  # overridden entries: params win
             for nl in (True, False):
                 overrides.append((f'{tag}|client_params_{"nl" if nl else "no_nl"}', base_part, ov, nl))
